@@ -418,7 +418,7 @@ theorem assignGroups_keep {n : String} {sym : Sym} :
 /-- the groups of a scope: keys are exactly the names that occur, the symbols are the filter -/
 theorem mem_groupsOf {syms : List (String × Sym)} {g : String × List Sym} :
     g ∈ groupsOf syms ↔ (∃ p, p ∈ syms ∧ p.1 = g.1) ∧ g.2 = (syms.filter (fun p => p.1 == g.1)).map (·.2) := by
-  unfold groupsOf
+  unfold groupsOf groupsOfKeys
   simp only [List.mem_map, mem_sortedNames]
   constructor
   · rintro ⟨a, ⟨p, hp, rfl⟩, rfl⟩
